@@ -21,6 +21,21 @@ theorem move_no_emission (m : Move) : sumEmission m.prims = 0 := by
   | transfer a b c v => rfl
   | feeBase payer v => rfl
   | burnTicker v => rfl
+  | bancor a sell sellAmt buy buyAmt bip => simp only [Move.prims]; split <;> split <;> rfl
+  | delegate a cand coin value wl => cases wl <;> rfl
+  | unbond a stakeCand coin value wl f =>
+    cases wl with
+    | none => rfl
+    | some w => simp only [Move.prims]; split
+                · rfl
+                · split <;> rfl
+  | lock a f => rfl
+  | declare a cd coin stake => rfl
+  | poolCreate a p lp => simp only [Move.prims]; split <;> rfl
+  | poolMint a c0 c1 a0 a1 lp liq => simp only [Move.prims]; split <;> rfl
+  | poolBurn a c0 c1 a0 a1 lp liq => simp only [Move.prims]; split <;> rfl
+  | orderAdd a o => rfl
+  | orderRemove a o => rfl
 
 theorem planOf_no_emission (ms : List Move) : sumEmission (planOf ms) = 0 := by
   induction ms with
